@@ -421,6 +421,9 @@ RUNTIME_RESET = {
     "unmodded_keys": "keys held outside the layout by unmod", "unshifted_keys": "keys held outside the layout by unshift",
     "waiting_for_idle": "on-idle actions that name virtual keys of the old configuration",
     "vkeys_pending_release": "pending releases that name virtual keys of the old configuration",
+    "last_pressed_key": "what `rpt` repeats: a key typed under the replaced configuration",
+    "dynamic_macro_record_state": "a recording in progress simply goes on under the new configuration",
+    "dynamic_macro_replay_state": "a replay in progress goes on feeding events to the new layout",
 }
 
 
@@ -445,6 +448,10 @@ def rule_runtime(prog):
                     rv = d[3]
             if rv["k"] == "agg" and rv.get("v") == "None":
                 cleared[pf[0][2]] = "= None"
+            elif rv["k"] == "agg" and rv.get("v") == "No" and (rv.get("adt") or "").endswith("KeyCode"):
+                cleared[pf[0][2]] = "= KeyCode::No"
+            elif rv["k"] == "use" and is_const(rv["a"]) and "KeyCode" in str(rv["a"]["c"].get("ty")):
+                cleared[pf[0][2]] = "= constant key code"
     for bi, t in f.calls():
         if (callee_name(t) or "").split("::")[-1] == "clear" and t["args"] and bi in ok_region:
             d = root_desc(f, t["args"][0]) or ""
